@@ -651,7 +651,12 @@ pub fn ast_events(doc: &Node, lay: &Layout) -> Vec<Ev> {
         match &n.kind {
             Kind::Scalar { value, style } => {
                 let _ = is_key;
-                let eff = effective_style(value, *style, in_flow, in_flow);
+                // (an empty plain scalar that carries an anchor or tag is rendered as nothing)
+                let eff = if value.is_empty() && *style == Style::Plain && (n.anchor.is_some() || n.tag.is_some()) {
+                    Style::Plain
+                } else {
+                    effective_style(value, *style, in_flow, in_flow)
+                };
                 out.push(Ev { k: EvK::Scalar(value.clone(), eff), anchor, tag: n.tag.clone() });
             }
             Kind::Alias(name) => {
